@@ -42,6 +42,63 @@ def run(ctx):
     r8(ctx)
 
 
+_PURE_BUILTINS = {"isinstance", "int", "str", "bool", "len", "float", "ValueError", "TypeError", "repr", "type", "tuple", "list", "set", "frozenset", "any", "all", "min", "max", "abs"}
+_PURE_STR_METHODS = {"lower", "upper", "strip", "lstrip", "rstrip", "split", "startswith", "endswith", "isdigit", "format", "join", "replace", "title", "casefold", "get"}
+
+
+def _is_pure(repo, fn, depth=0):
+    """the function computes its result from its arguments alone: no call reaches the operating system, the file system, the
+    user database, the import machinery or a user hook (only builtins, string methods and other functions of the same kind)"""
+    for c in walk_own(fn.node):
+        if not isinstance(c, ast.Call):
+            continue
+        q = repo.call_target(fn.module, fn, c)
+        if isinstance(c.func, ast.Name) and c.func.id in _PURE_BUILTINS and c.func.id not in fn.locals:
+            continue
+        if isinstance(c.func, ast.Attribute) and c.func.attr in _PURE_STR_METHODS and (q is None or not q.startswith(("os.", "pwd.", "grp.", "importlib", "gunicorn.util", "socket.", "ssl."))):
+            continue
+        if q and q.startswith("gunicorn.config.") and repo.has_func(q) and depth < 2 and _is_pure(repo, repo.func(q), depth + 1):
+            continue
+        return False
+    return True
+
+
+def _pure_memo_only(repo, f, vn):
+    """every way round the validator call is taken only under a test that the setting's validator is one of a module-level
+    tuple of functions, all of them pure, and stores a value looked up in a module-level table under a key that contains the
+    raw value"""
+    g = f.cfg
+    gates = []
+    for t in g.tests():
+        names_ = [x.id for x in ast.walk(t.ast) if isinstance(x, ast.Name) and x.id not in f.locals and x.id not in f.params]
+        if "validator" not in norm(t.ast):
+            continue
+        for nm in names_:
+            try:
+                m, ce = repo.const_expr("%s.%s" % (f.module.name, nm))
+            except Exception:
+                continue
+            if isinstance(ce, (ast.Tuple, ast.List)) and ce.elts and all(isinstance(e_, ast.Name) for e_ in ce.elts):
+                fns = ["%s.%s" % (f.module.name, e_.id) for e_ in ce.elts]
+                if all(repo.has_func(q_) and _is_pure(repo, repo.func(q_)) for q_ in fns):
+                    gates.append(t)
+    if not gates:
+        return False
+    # without the true edges of the gates, no path avoids the validator call
+    if g.path(g.entry, [g.exit], without_nodes=vn, without_edges=[(t, "true") for t in gates], follow_exc=False) is not None:
+        return False
+    # what is stored on the way round comes out of a table, under a key that holds the raw value
+    P = f.params[1]
+    for x in walk_own(f.node):
+        if isinstance(x, ast.Assign) and any(isinstance(t, ast.Attribute) and t.attr == "value" and tail(t.value) == "self" for t in x.targets) and not isinstance(x.value, ast.Call):
+            if not (isinstance(x.value, ast.Subscript) and isinstance(x.value.slice, ast.Name)):
+                return False
+            ks = [s_ for s_ in stores_to_name(f, x.value.slice.id) if isinstance(s_.ast, ast.Assign) and s_.ast.value is not None and not (isinstance(s_.ast.value, ast.Constant) and s_.ast.value.value is None)]
+            if not ks or not all(any(isinstance(y, ast.Name) and y.id == P for y in ast.walk(s_.ast.value)) for s_ in ks):
+                return False
+    return True
+
+
 def r9(ctx):
     repo = ctx.repo
     f = ctx.fn(repo.func(CFG + ".Setting.set"))
@@ -50,11 +107,14 @@ def r9(ctx):
     ctx.need(vc, "C16.R9: Setting.set does not call self.validator")
     vn = [n for c in vc for n in nodes_with(f, c)]
     pth = g.must_pass(g.entry, vn, follow_exc=False)
+    if pth is not None and _pure_memo_only(repo, f, vn):
+        pth = None
     ctx.check("C16.R9", pth is None, key(f, "always-validates"), site(f), "Setting.set can return without calling the validator (cached / short-cut result): a value accepted once is installed again although "
               "the validator would now reject or normalise it differently (relative chdir in another directory, a file that no longer exists, a user that was removed)", "validator called on every set()",
               path=pth and g.fmt_path(pth))
     stores = [x for x in walk_own(f.node) if isinstance(x, ast.Assign) and any(isinstance(t, ast.Attribute) and t.attr == "value" and tail(t.value) == "self" for t in x.targets)]
-    ctx.check("C16.R9", bool(stores) and all(any(x.value is c for c in vc) for x in stores), key(f, "stores-validated"), site(f, stores[0] if stores else None),
+    memo_ok = _pure_memo_only(repo, f, vn)
+    ctx.check("C16.R9", bool(stores) and all(any(x.value is c for c in vc) or (memo_ok and isinstance(x.value, ast.Subscript)) for x in stores), key(f, "stores-validated"), site(f, stores[0] if stores else None),
               "Setting.set stores something other than what the validator just returned", "self.value = self.validator(val)")
     fc = ctx.fn(repo.func(CFG + ".Config.set"))
     sc = [c for c in method_calls(fc, "set") if "settings" in norm(c.func.value)]
